@@ -351,7 +351,22 @@ def run(ctx):
             skipping = [n for n in ast.walk(lp) if isinstance(n, (ast.Continue, ast.Break)) and cfg.idx(n) in reach and _innermost_loop(prog, h, n) is lp]
             if head in reach or skipping:
                 node = skipping[0] if skipping else lp
-                ctx.violate("R7", f"{h.name}: a path through the per-shell loop bypasses the statement that corrects the coefficients (line {mods[0].lineno}); those shells are returned uncorrected next to corrected ones", h, node)
+                # a bypass is legitimate when it depends on the shell type only (a type this vendor writes correctly):
+                # decided by evaluating the helper on abstract shells of 1, 2 and 3 primitives per type -- which types
+                # are rescaled must not depend on the length of the contraction, and a touched shell is rescaled whole
+                from ..accessors import Raised as _Raised
+                from ..symarr import NotSymbolic as _NotSym
+                from .c05_semantics import touched_pattern
+
+                try:
+                    pats = [touched_pattern(prog, h, np_) for np_ in (1, 2, 3)]
+                except (_Raised, _NotSym):
+                    pats = None
+                uniform = pats is not None and all(p_ is not None and p_ for p_ in pats) and all(all(len(set(v)) == 1 for v in p_.values()) for p_ in pats) and len({tuple(sorted((k_, v[0]) for k_, v in p_.items())) for p_ in pats}) == 1
+                if uniform:
+                    ctx.ok("R7", f"{h.name}: shells that bypass the correction are selected by their type only (evaluated on contractions of 1, 2 and 3 primitives: the same types are rescaled, each as a whole)", f"{h.module.relpath}:{lp.lineno}")
+                else:
+                    ctx.violate("R7", f"{h.name}: a path through the per-shell loop bypasses the statement that corrects the coefficients (line {mods[0].lineno}); those shells are returned uncorrected next to corrected ones", h, node)
             else:
                 ctx.ok("R7", f"{h.name}: every shell of the loop reaches the coefficient correction (line {mods[0].lineno})", f"{h.module.relpath}:{lp.lineno}")
     ctx.floor("R7", nfix, 4, "per-shell correction loops")
